@@ -7,12 +7,73 @@ HOOK_COMMITS = subprocess.run(
     capture_output=True, text=True).stdout.strip().splitlines()
 
 # id -> (level, technique, text, note, design_ref, engine)
+SIM = "real anemo Networks on an in-memory datagram fabric under tokio's virtual clock (socket hook)"
 CHECKS = {
+ "C01": ("exploration",
+   "runtime monitor: forged-certificate corpus through the real verifiers + adversary endpoint vs. ground-truth address registry",
+   "Verifier level: replayed, re-signed, key-planted, expired, CA, ECDSA, truncated, garbage and every-offset single-byte-mutated certificates through the three real verifiers with handshake signatures by both keys; oracle: accepted certificate AND accepted signature by key K implies attributed PeerId = pub(K). End to end: an adversary endpoint holding only key Y dials / is dialed by real Networks with ten hostile identities while honest RPCs carry other parties' ids in every encoding; every PeerId attributed in handlers, responses, events and dial results must equal the ground-truth owner of the remote fabric address.",
+   "Ed25519/TLS1.3 strength assumed; adversary limited to rustls' public traits + DER splicing (no malformed TLS records).",
+   "DESIGN.md §4 C01", "E1 simnet + E3 component"),
+ "C02": ("exploration",
+   "runtime monitor: offline history checker (unique ids) over simulated lossy/reordering/duplicating fabric",
+   "Hundreds to thousands of scenarios with 1-200 concurrent RPCs in both directions, bodies 0 B-4 MB (thorough 16 MB), random header maps/routes/statuses and randomised handler completion order under loss, duplication, reordering and black-outs; the merged call/return/start/finish history is checked for at-most-once, request integrity, response integrity and pairing.",
+   "Body equality on (length, 64-bit hash); QUIC retransmission is exercised, not specified.",
+   "DESIGN.md §4 C02", "E1 simnet"),
+ "C03": ("exploration",
+   "runtime monitor: racing pinned/unpinned dials with handshake-window drop rules vs. ground-truth registry",
+   "3-5 Networks plus an impostor replaying the expected peer's certificate; racing dials with right/wrong pins under drop rules on long-header packets, on the first 1-RTT datagrams, or random loss; oracle compares returned identity with the owner of the dialed address, checks membership in the caller's connected set during the call from timestamped events, and that parties that only met through a mismatching dial never list, announce or serve each other.",
+   "One-hop topologies, no address migration.",
+   "DESIGN.md §4 C03", "E1 simnet"),
+ "C04": ("exploration",
+   "runtime monitor: snapshot+event replay vs. listing after every step; adversary duplicate connections",
+   "Random histories of dials, disconnects, restarts, partitions, cuts, loss bursts among 3-5 Networks plus an adversary that opens duplicate connections with one identity; after every step each node's synchronously drained subscription must reproduce peers() exactly, events must alternate per peer, and at quiescent points the adversary's un-closed connections to a node are exactly one iff it is listed.",
+   "'At every instant' is sampled after every harness step.",
+   "DESIGN.md §4 C04", "E1 simnet"),
  "C05": ("exploration",
-         "runtime monitor over simulated mutual dials (virtual-time QUIC fabric) + convergence/agreement oracle",
-         "Thousands of real mutual dials between two real Networks on an in-memory datagram fabric under tokio's virtual clock, with seeded start offsets, asymmetric latency, loss and duplication; the oracle checks listings, event sequences, RPCs in both directions, that both sides kept the same physical connection, a quiet period, and cross-scenario determinism of the survivor.",
-         "Interleavings are those the seeded fabric produces (reported as distinct signatures), not an enumeration; QUIC/TLS internals trusted.",
-         "DESIGN.md §4 C05", "E1 simnet"),
+   "runtime monitor over simulated mutual dials + convergence/agreement oracle",
+   "Real mutual dials between two Networks with seeded start offsets, asymmetric latency, loss and duplication; the oracle checks listings, event sequences, RPCs in both directions, that both sides kept the same physical connection, a quiet period, and cross-scenario determinism of the survivor.",
+   "Interleavings are those the seeded fabric produces (reported as distinct signatures), not an enumeration.",
+   "DESIGN.md §4 C05", "E1 simnet"),
+ "C06": ("exploration",
+   "runtime monitor: hostile stream programmes from an admitted adversary + panic hook + honest-traffic oracle",
+   "An admitted adversary endpoint runs seeded programmes of malformed, truncated (swept offset), oversized, bincode-bomb, reset/stop/abandon, stream-flood, uni-stream, datagram and abrupt-close actions while honest RPCs run in both directions; monitors: process panic hook, is_closed(), C02 oracle and latency bound on honest RPCs, correctness of well-formed probes on fresh streams, and that every handler start attributed to the adversary equals a complete valid request it sent (independent parser).",
+   "Only inputs expressible through QUIC streams of an authenticated peer; memory exhaustion not judged.",
+   "DESIGN.md §4 C06", "E1 simnet"),
+ "C09": ("exploration",
+   "runtime monitor: bounded-progress oracle at quiescent points of random fault histories (virtual time)",
+   "Random histories (dial, disconnect, restart, partition, one-way cut, loss burst, idle) among 3-5 Networks with idle timeout 2-10 s and keep-alive off/short/long; at quiescent points (T_q of fault-free virtual time) A lists B iff B lists A and every listed peer answers an RPC; disconnect() removes at once with LostPeer(Requested) and RPCs fail. One recorded finding (idle-expiry asymmetry) is classified by exact signature.",
+   "'Eventually' restated as T_q = idle + keep-alive + 3 latency + 1 s; see known_findings.json.",
+   "DESIGN.md §4 C09", "E1 simnet"),
+ "C10": ("exploration",
+   "runtime monitor vs. executable admission model",
+   "One listener (limit None/0/1/2/3/5) and 4-8 dialers with seeded, runtime-edited affinities; every non-overlapping arrival is compared with admit(affinity, limit, established); explicit and background dials by the limited node must ignore its limit; rejected dialers fail within the connect timeout and leave no trace.",
+   "Simultaneous arrivals excluded as the property states.",
+   "DESIGN.md §4 C10", "E1 simnet"),
+ "C11": ("exploration",
+   "runtime monitor vs. executable deadline model in exact virtual time",
+   "Two Networks with seeded outbound/inbound defaults, optional user outbound layer, RPCs through Network::rpc / Peer::rpc / Peer-as-Service with hostile timeout headers and scripted handler durations; the model C=min?(O,h), S=min?(I,h) decides outcome class, latency to +-3 ms of virtual time and handler lifetime.",
+   "Deadlines closer than 50 ms to each other are not judged.",
+   "DESIGN.md §4 C11", "E1 simnet"),
+ "C12": ("fault_enumeration",
+   "runtime monitor: abandonment instant swept on an RTT/8 grid; handler start/finish/drop log + gauges",
+   "The abandonment instant is enumerated on a grid across stream open, request transfer, handler running and response transfer (bodies 0 B/100 KB/2 MB), three ways of abandoning, histories of 3x-50x the stream limit; the handler of an abandoned RPC must be dropped within 2 RTT + 50 ms and never finish later, the live-handler gauge returns to 0, a fresh RPC completes within 20x unloaded latency, siblings are intact.",
+   "Promptness relative to simulated RTT; 3 s bound under injected loss.",
+   "DESIGN.md §4 C12", "E1 simnet"),
+ "C13": ("exploration",
+   "runtime monitor: dial attempts read off the fabric tap over minutes-hours of virtual time",
+   "Class A: all High peers black-holed, never-dial entries present; attempts (first Initial per connection) checked for who/rotation/backoff spacing/in-flight cap/keeps-dialing bounds. Class B: reachable High peers; bounded success, re-dial after loss, recovery after k failures, no dial while connected.",
+   "Liveness as the bounded-progress bounds of the statement; tick jitter included in bounds.",
+   "DESIGN.md §4 C13", "E1 simnet"),
+ "C14": ("exploration",
+   "runtime monitor vs. name-acceptance model (verifiers + simnet + adversary)",
+   "Verifier-level triples (accepted names, certificate name, dialed name) and end-to-end dials among Networks with (primary, alternate) names, an adversarial dialer with every (hello name, certificate name) pair and an adversarial listener, all compared with the model.",
+   "Case variants and wildcard certificates not judged.",
+   "DESIGN.md §4 C14", "E1 simnet + E3 component"),
+ "C15": ("exploration",
+   "runtime monitor vs. size-limit classification model (codec level + simnet)",
+   "Boundary sweep limit-2..limit+2 on the real frame codec and end-to-end RPCs aiming each of the four frames at an applicable limit on caller/callee/both/neither, plus 8 MiB-boundary and 12/32 MiB RPCs without limits; every error must be confined to the RPC. The 8 MiB cap with no limit configured is a recorded finding.",
+   "Header-frame sizes computed by an independent reference encoder.",
+   "DESIGN.md §4 C15", "E1 simnet + E3 component"),
 }
 
 NOT_YET = {}
@@ -49,7 +110,8 @@ def main():
             "add_only": True,
         },
         "engines": [
-            {"name": "E1 simnet", "path": "/verif/harness/src/{fabric,world}.rs", "kind_free_text": "real anemo Networks on an in-memory datagram fabric under tokio's paused clock; monitors at the API boundary"},
+            {"name": "E1 simnet", "path": "/verif/harness/src/{fabric,world,adversary}.rs", "kind_free_text": "real anemo Networks (+ raw hostile quinn/rustls endpoints) on an in-memory datagram fabric under tokio's paused clock; monitors at the API boundary", "serves_properties": ["C01","C02","C03","C04","C05","C06","C09","C10","C11","C12","C13","C14","C15"]},
+            {"name": "E3 component", "path": "/verif/harness/src/props", "kind_free_text": "single components behind cfg-guarded wrappers or public API, with reference models in /verif/harness/src/refmodel"},
         ],
         "checks": checks,
         "not_applicable": na,
